@@ -2183,6 +2183,12 @@ impl StreamsState {
                 .filter_map(|x| x.as_ref()?.as_open_recv())
                 .map(|r| r.assembler.verif_buffered() as u64)
                 .sum(),
+            recv_memory: self
+                .recv
+                .values()
+                .filter_map(|x| x.as_ref()?.as_open_recv())
+                .map(|r| r.assembler.verif_memory())
+                .collect(),
             next: self.next,
             max: self.max,
             max_remote: self.max_remote,
